@@ -20,8 +20,8 @@ COMPONENTS = {"real": ["VM fuel/preemption", "sexp_scheduler", "mutex/condvar/jo
               "stub": ["slice lengths", "gettimeofday/usleep (simulated clock)", "collection schedule"]}
 BUDGET = {"quick": {"seconds": 75, "cases": 20000}, "thorough": {"seconds": 1500, "cases": 2000000}}
 CONFIGS = {
-    "sim": {"variant": "sim", "imports": ["(srfi 18)", "(srfi 39)"], "timeout_ms": 60000},
-    "asan": {"variant": "asan", "imports": ["(srfi 18)", "(srfi 39)"], "timeout_ms": 180000},
+    "sim": {"variant": "sim", "imports": ["(srfi 18)", "(srfi 39)", "(srfi 95)"], "timeout_ms": 60000},
+    "asan": {"variant": "asan", "imports": ["(srfi 18)", "(srfi 39)", "(srfi 95)"], "timeout_ms": 180000},
 }
 
 
@@ -276,7 +276,22 @@ def f_timed(rng):
     return "timed-" + scen, src, exp, 3
 
 
-FAMILIES = [(f_mutex_counter, 4), (f_two_locks, 2), (f_condvar_buffer, 4), (f_fork_join, 3), (f_join_states, 2), (f_locals, 3), (f_timed, 4)]
+def f_callbacks(rng):
+    """threads preempted INSIDE a C->Scheme callback (sort with a Scheme comparator): known finding F1 lives here and only here"""
+    t = rng.range(2, 3)
+    n = rng.range(5, 12)
+    spin = rng.range(0, 60)
+    src = """
+(define (slow< a b) (let lp ((j 0)) (if (< j %d) (lp (+ j 1)))) (< a b))
+(define (work id) (lambda () (sort (map (lambda (i) (modulo (* (+ i id) 7919) 101)) '(%s)) slow<)))
+(define ths (map (lambda (id) (thread-start! (make-thread (work id)))) '(%s)))
+(write (map thread-join! ths))
+""" % (spin, " ".join(map(str, range(n))), " ".join(map(str, range(t))))
+    exp = "(" + " ".join("(" + " ".join(map(str, sorted(((i + tid) * 7919) % 101 for i in range(n)))) + ")" for tid in range(t)) + ")"
+    return "callbacks", src, exp, t + 1
+
+
+FAMILIES = [(f_callbacks, 1), (f_mutex_counter, 4), (f_two_locks, 2), (f_condvar_buffer, 4), (f_fork_join, 3), (f_join_states, 2), (f_locals, 3), (f_timed, 4)]
 
 
 def gen_sched(rng, timed):
@@ -350,6 +365,8 @@ def execute(case, run):
             oc.verdicts.append(Verdict("thread-error", "top level raised: %s" % exc[0]["res"][:300], {"family": fam}))
         elif exp is not None and out != exp:
             oc.verdicts.append(Verdict("result-mismatch", "family %s: printed %r, sequential specification %r" % (fam, out[-400:], exp[-400:]), {"family": fam}))
+    for v in oc.verdicts:
+        v.sig["family"] = fam.split("-")[0] if fam.startswith("timed") else fam
     st = res.get("stats", {})
     if st:
         cnt = res.get("counters", {})
